@@ -161,6 +161,7 @@ def run(ctx: Ctx) -> None:
     ctx.floor("T5.dtype", 8)
     from .. import autograd_lint
     autograd_lint.saved_inplace(ctx, FUNC_MODULES + [m for m in CLASS_MODULES if m in ctx.prog.modules])
+    autograd_lint.scratch_reuse(ctx, FUNC_MODULES + [m for m in CLASS_MODULES if m in ctx.prog.modules])
     autograd_lint.hook_receiver(ctx, [m for m in CLASS_MODULES if m in ctx.prog.modules])
     autograd_lint.update_order(ctx, [m for m in CLASS_MODULES if m in ctx.prog.modules and m.startswith("deepali.spatial")])
 
